@@ -1,6 +1,6 @@
 (** C18 — property theorems only.  Each is closed by [exact] of a lemma proved in Proofs.v / JsonProofs.v
     and followed by [Print Assumptions]. *)
-From V Require Import Base.Util C18.Model C18.Spec C18.Corr C18.JsonProofs C18.Proofs.
+From V Require Import Base.Util C18.Model C18.Spec C18.Corr C18.JsonProofs C18.Proofs C18.NoPanic.
 Local Open Scope N_scope.
 
 (** exit status 0 exactly when no stage reports anything ([clean] is a predicate on the stage answers);
@@ -9,6 +9,17 @@ Theorem C18_exit_zero_iff_no_diagnostic : forall p,
   crashed (run p) = false -> (exit_status (run p) = 0 <-> clean p = true).
 Proof. exact exit_zero_iff_clean. Qed.
 Print Assumptions C18_exit_zero_iff_no_diagnostic.
+
+(** a computable condition on the stage answers that rules panics out: no printer panics and every
+    position of every error names a file already in the store *)
+Theorem C18_no_panic_guard : forall p, no_panic_b p = true -> crashed (run p) = false.
+Proof. exact no_panic_guard. Qed.
+Print Assumptions C18_no_panic_guard.
+
+Theorem C18_exit_zero_iff_no_diagnostic_guarded : forall p,
+  no_panic_b p = true -> (exit_status (run p) = 0 <-> clean p = true).
+Proof. exact (fun p H => exit_zero_iff_clean p (no_panic_guard p H)). Qed.
+Print Assumptions C18_exit_zero_iff_no_diagnostic_guarded.
 
 (** the guard is necessary: a panic ends with status 0 on a project that is not clean, with files written *)
 Theorem C18_panic_exits_zero_refuted :
